@@ -204,7 +204,9 @@ impl Scenario for C09 {
             let c = *c as usize;
             if x.pre_trials_full && !x.pre_had_inner {
                 match &w.callers[c].phase {
-                    Phase::Done(Outcome::Layer(t)) if t == "Open" => x.saw_reject_beyond = true,
+                    Phase::Done(Outcome::Layer(t)) if t == "Open" && !self.cfg.fallback => x.saw_reject_beyond = true,
+                    // with_fallback: a caller that is turned away is answered by the fallback
+                    Phase::Done(Outcome::Ok(r)) if self.cfg.fallback && r.serial == crate::handle::FALLBACK_SERIAL => x.saw_reject_beyond = true,
                     other => {
                         if !has_inner(w, c) {
                             out.push(Viol::new("beyond_permitted_not_rejected", site, format!("caller {c} arrived with all trial slots taken; expected rejection at once, got {:?}", other)));
